@@ -187,6 +187,7 @@ pub fn world_to_json(w: &World) -> Value {
             AccessCfg::None => json!({"type": "none"}),
             AccessCfg::TurnDelay { headings, table, unit } => json!({"type": "turn_delay", "headings": headings, "table": table, "unit": unit.to_string()}),
         },
+        "access_wrap": w.access_wrap,
         "cost": {
             "weights": w.cost.weights,
             "vehicle_rates": w.cost.vehicle_rates.iter().map(|(k, v)| json!([k, rate_to_json(v)])).collect::<Vec<_>>(),
@@ -261,6 +262,7 @@ pub fn world_from_json(v: &Value) -> Option<World> {
         trav,
         state,
         access,
+        access_wrap: v["access_wrap"].as_u64().unwrap_or(0) as u8,
         cost: CostCfg { weights, vehicle_rates, edge_surcharge, turn_surcharge, agg },
         frontier: frontier_from_json(&v["frontier"])?,
         term: term_from_json(&v["termination"])?,
